@@ -17,6 +17,7 @@ package models
 //@   lock_level mutex = 60
 
 //@ type Session
+//@   immutable ID, participants, entities, moduleStates, frameHandlers, entityComponents : NewSession
 //@   guarded_by participants : participantMutex
 //@   guarded_by entities : entityMutex
 //@   guarded_by moduleStates : moduleMutex
@@ -31,6 +32,7 @@ package models
 //@   lock_level mutex = 50
 
 //@ type EntityComponentStore
+//@   immutable nameIndex, idIndex, entityComponents, subscriptions : newEntityComponentStore
 //@   guarded_by nameIndex, idIndex, entityComponents : mutex
 //@   guarded_by subscriptions : subscriptionMutex
 //@   lock_level subscriptionMutex = 30
@@ -98,10 +100,14 @@ package models
 //@   allocates
 //@   ensures len(result) == len(s.participants)
 //@   ensures forall j: int :: 0 <= j && j < len(result) ==> member(s, result[j])
+//@   ensures {C01} forall k: uint32 :: k in s.participants ==> exists j: int :: 0 <= j && j < len(result) && result[j] == s.participants[k]
 //@   loop 1:
+//@     ghost pos
+//@     update pos[$p] = len($participants) - 1
 //@     invariant len($participants) == N
 //@     invariant forall k: uint32 :: k in V ==> k in s.participants
 //@     invariant forall j: int :: 0 <= j && j < len($participants) ==> member(s, $participants[j])
+//@     invariant forall k: uint32 :: k in V ==> 0 <= pos[s.participants[k]] && pos[s.participants[k]] < len($participants) && $participants[pos[s.participants[k]]] == s.participants[k]
 
 //@ func (*models.Session).Entities
 //@   property C01
@@ -110,7 +116,11 @@ package models
 //@   allocates
 //@   ensures len(result) == len(s.entities)
 //@   ensures forall j: int :: 0 <= j && j < len(result) ==> result[j] != nil && result[j].ID in s.entities && s.entities[result[j].ID] == result[j]
+//@   ensures {C01} forall k: uint32 :: k in s.entities ==> exists j: int :: 0 <= j && j < len(result) && result[j] == s.entities[k]
 //@   loop 1:
+//@     ghost pos
+//@     update pos[$e] = len($entities) - 1
+//@     invariant forall k: uint32 :: k in V ==> 0 <= pos[s.entities[k]] && pos[s.entities[k]] < len($entities) && $entities[pos[s.entities[k]]] == s.entities[k]
 //@     invariant len($entities) == N
 //@     invariant forall k: uint32 :: k in V ==> k in s.entities
 //@     invariant forall j: int :: 0 <= j && j < len($entities) ==> $entities[j] != nil && $entities[j].ID in s.entities && s.entities[$entities[j].ID] == $entities[j]
